@@ -102,13 +102,54 @@ class RidgeWorld:
         return []
 
 
+class SlabSplineWorld(RidgeWorld):
+    """structured world: a slab with the mass conserving temperature (spline on or off, few spline points) and a negative top truncation under a cold overriding plate,
+    next to the oceanic plate it comes from; probed densely through the fore-arc and along the slab"""
+    def __init__(self, rng):
+        self.spherical = False
+        self.radius = 6371000
+        self.rng = rng
+        x1 = rng.choice([1000e3, 1500e3])
+        trunc = -rng.choice([40e3, 60e3, 100e3])
+        th = rng.choice([100e3, 150e3])
+        over = {"model": rng.choice(["continental plate", "oceanic plate"]), "name": "overriding", "min depth": 0, "max depth": rng.choice([80e3, 120e3]),
+                "coordinates": [[x1, -500e3], [x1, 500e3], [x1 + 1500e3, 500e3], [x1 + 1500e3, -500e3]],
+                "temperature models": [rng.choice([{"model": "linear", "max depth": 120e3, "top temperature": 273, "bottom temperature": -1}, {"model": "uniform", "temperature": 273},
+                                                   {"model": "linear", "max depth": 120e3, "top temperature": 273, "bottom temperature": 273}])]}
+        mc = {"model": "mass conserving", "density": 3300, "thermal conductivity": 3.3, "adiabatic heating": rng.random() < 0.7, "spreading velocity": 0.05, "subducting velocity": rng.choice([0.05, 0.02]),
+              "ridge coordinates": [[[0, -500e3], [0, 500e3]]], "coupling depth": rng.choice([80e3, 100e3]), "taper distance": rng.choice([50e3, 100e3]),
+              "min distance slab top": trunc, "max distance slab top": th, "reference model name": rng.choice(["half space model", "plate model"]),
+              "apply spline": rng.random() < 0.8, "number of points in spline": rng.choice([3, 5, 5, 8, 15])}
+        a1 = rng.choice([30, 45, 60])
+        slab = {"model": "subducting plate", "name": "slab", "coordinates": [[x1, -500e3], [x1, 500e3]], "dip point": [x1 + 1500e3, 0],
+                "segments": [{"length": 300e3, "thickness": [th], "top truncation": [trunc], "angle": [0, a1]}, {"length": 400e3, "thickness": [th], "top truncation": [trunc], "angle": [a1, a1]}],
+                "temperature models": [mc]}
+        sea = {"model": "oceanic plate", "name": "incoming", "min depth": 0, "max depth": 100e3, "coordinates": [[0, -500e3], [0, 500e3], [x1, 500e3], [x1, -500e3]],
+               "temperature models": [{"model": "plate model", "max depth": 100e3, "spreading velocity": 0.05, "ridge coordinates": [[[0, -500e3], [0, 500e3]]]}]}
+        self.x1 = x1
+        self.w = {"version": "1.1", "surface temperature": 273, "force surface temperature": rng.random() < 0.3, "potential mantle temperature": 1673, "features": [sea, over, slab]}
+    def dense(self):
+        r = self.rng
+        out = []
+        for k in range(48):
+            x = self.x1 + (-0.2 + 1.1 * k / 47) * 1000e3
+            for d in (0.0, 5e3, 15e3, 35e3, 70e3, r.uniform(0, 500e3)):
+                out.append(([x, r.choice([0.0, -250e3, 137e3])], d))
+        return out
+
+
 def build_session(rng, decl, tier, wdir, name):
     lines, tags = [], []
     nw = budget(tier, 22, 250)
-    structured = [(sph, model) for sph in (False, True) for model in ("half space model", "plate model")]
+    structured = [(sph, model) for sph in (False, True) for model in ("half space model", "plate model")] + ["slab-spline"] * budget(tier, 3, 20)
     for wi in range(nw + len(structured)):
-        if wi >= nw:
+        if wi >= nw and structured[wi - nw] == "slab-spline":
+            g = SlabSplineWorld(rng)
+        elif wi >= nw:
             g = RidgeWorld(rng, *structured[wi - nw])
+        elif wi % 3 == 1:
+            # slabs with the slab-only temperature models (plate model, mass conserving: ridge tables, reference models, spline on/off)
+            g = WorldGen(random.Random(rng.getrandbits(64)), schema=decl, with_lines=True, with_random=False, max_features=3, slab_models=0.7)
         else:
             g = WorldGen(random.Random(rng.getrandbits(64)), schema=decl, with_lines=True, with_random=(wi % 4 == 0), max_features=3)
         w = g.world()
@@ -137,6 +178,9 @@ def build_session(rng, decl, tier, wdir, name):
             else:
                 lines.append(q3("w", p3, d, [(1, 0, 0), (4, 0, 0)]))
             tags.append(tag)
+        if isinstance(g, SlabSplineWorld):
+            for (sp, d) in g.dense():
+                lines.append(q3("w", g.point3(sp, d), d, [(1, 0, 0), (4, 0, 0)])); tags.append("slab-spline:fore-arc")
         for (tag, sp) in [x for x in pos if x[0].startswith("ridge:")][:12]:
             for d in (0.0, 1.0):
                 lines.append(q3("w", g.point3(sp, d), d, [(1, 0, 0), (4, 0, 0)])); tags.append(tag)
